@@ -22,6 +22,10 @@ func c06case(c GCase, a *run.Acc, variant int) {
 	a.Count("cases", 1)
 	o := sentenceOpts{Named: variant&1 == 1, NameSeqs: variant&2 == 2 && variant&1 == 1, ExplicitEnd: variant&4 == 4}
 	o.NameOptionals = o.NameSeqs
+	o.Prescan = variant&16 == 16
+	if o.Prescan {
+		a.Count("cases with an earlier parse on the same context", 1)
+	}
 	if variant&8 == 8 {
 		o.Before = []int{3 + variant%5, variant % 3}
 	}
@@ -172,6 +176,9 @@ func init() {
 				h := run.Hash(fmt.Sprintf("%d/%d", j.Seed, n))
 				n++
 				v := int(h % 16)
+				if (h>>8)%3 == 0 {
+					v |= 16 // a successful scan of the bare nonterminal on the same context first
+				}
 				c06case(c, a, v)
 				c06case(c, a, v^1) // the same case with the other naming
 			})
